@@ -641,7 +641,7 @@ pub fn run(ctx: &Ctx) -> Report {
         }
     });
     let mut rep = Report::new(stats,
-        "cases: every shape (m,n) in [1,6]^2 x {f64 via Mat64::jacobian, Cmplx via jacobian_cmplx}; per shape and type (i) affine maps x->Mx+c with dyadic M (q/2^s, |q|<=64, s<=3; dense / sparse / small-integer / signed-selection patterns; plus a wide-row class: entries q/2^s with |q|<=3, s<=6 next to offsets c_i of up to 2^(52-k-s), where the exact increment M_ij*delta is as small as one ulp of f_i), dyadic c and points k/16 in [-4,4]^n (Gaussian-dyadic in the complex case) for EVERY step delta=2^-k, k=4..26, plus a seed-independent sweep (index-coded M with all entries distinct at 4 fixed points x all k); (ii) for every delta in {2^-4..2^-26, 1e-8} a random map built from terms {const, a*x_p, a*x_p*x_q, a*x_p^2*x_q, a*sin(w.x+b), a*exp(w.x+b), a/(8+x_p), a/(1+x_p^2) (real only)} (class smooth, 1-3 terms per component) or a general-coefficient affine map (class affine-general) at general / dyadic / special points in [-4,4]^n. The closure logs all call points and returned values. A case is non-trivial when the analytic Jacobian has a nonzero entry; distinct = distinct (type, class, m, n, delta, map data, point) hashes");
+        "[round 6: one unit in eight adds exact affine maps of shape (7..24) x (7..24), both types, four steps] cases: every shape (m,n) in [1,6]^2 x {f64 via Mat64::jacobian, Cmplx via jacobian_cmplx}; per shape and type (i) affine maps x->Mx+c with dyadic M (q/2^s, |q|<=64, s<=3; dense / sparse / small-integer / signed-selection patterns; plus a wide-row class: entries q/2^s with |q|<=3, s<=6 next to offsets c_i of up to 2^(52-k-s), where the exact increment M_ij*delta is as small as one ulp of f_i), dyadic c and points k/16 in [-4,4]^n (Gaussian-dyadic in the complex case) for EVERY step delta=2^-k, k=4..26, plus a seed-independent sweep (index-coded M with all entries distinct at 4 fixed points x all k); (ii) for every delta in {2^-4..2^-26, 1e-8} a random map built from terms {const, a*x_p, a*x_p*x_q, a*x_p^2*x_q, a*sin(w.x+b), a*exp(w.x+b), a/(8+x_p), a/(1+x_p^2) (real only)} (class smooth, 1-3 terms per component) or a general-coefficient affine map (class affine-general) at general / dyadic / special points in [-4,4]^n. The closure logs all call points and returned values. A case is non-trivial when the analytic Jacobian has a nonzero entry; distinct = distinct (type, class, m, n, delta, map data, point) hashes");
     rep.assumptions = vec![
         "affine-exact cases: exactness of every f64 operation is certified per case by an integer (2^-29 grid) model of the logged closure calls; a failed certificate is a harness error, never a verdict".into(),
         "call log follows DESIGN: exactly n+1 calls, call 0 at x, call j+1 at x+delta*e_j; coordinates l>j bit-equal to x_l; coordinates l<=j bit-equal on dyadic data, within 256*u*(|x_l|+delta) on general data (rigorous rounding bound of (x+d)-d is 2 such units)".into(),
